@@ -738,6 +738,10 @@ class StrategyBase(Node):
                 # Declare a bankruptcy
                 self.bankrupt = True
                 self.flatten()
+                # everything computed so far predates the liquidation (which
+                # may have cost commissions and bid/offer): start over
+                self.update(date, data, inow)
+                return
 
         # update data if this value is different, if flows were booked since
         # the last update (they change the return base) or
